@@ -7,7 +7,7 @@
 From Coq Require Import NArith ZArith List Bool.
 From Pq Require Import Base.Bytes Thrift.Varint Thrift.Compact Thrift.Idl Thrift.IdlPinned
   Impl.CThrift Impl.CThriftSpec Proofs.CompactProofs Proofs.CThriftProofs Proofs.CThriftRead
-  Proofs.CThriftRoundtrip Proofs.CThriftMain.
+  Proofs.CThriftRoundtrip Proofs.CThriftMain Proofs.CThriftReser.
 Import ListNotations.
 Open Scope N_scope.
 
@@ -47,6 +47,34 @@ Theorem C10_reads_spec_encoding : forall fs rest,
   from_buffer (wr (TStruct fs) ++ rest) = Some (pv_of (TStruct fs), rest).
 Proof. exact from_buffer_spec. Qed.
 Print Assumptions C10_reads_spec_encoding.
+
+(* re-serialisation of metadata read from another writer (merge, append, metadata update) - partial: for
+   every struct in the class reser_ok (field ids 1..13 ascending, integers i32/i64 only, lists non-empty
+   with elements i32 in C int range / binary / struct, any nesting and sizes) the object read_thrift builds
+   from the specification's encoding serialises back to exactly those bytes: field ids and every wire type
+   are kept (the i32/i64 distinction is restored from the "i32"/"i32list" markers read_thrift sets).
+   Outside the class the pinned code changes the bytes: ids >= 14 are dropped, i8/i16 become i32/i64,
+   list<i64> becomes list<i32>, an empty list loses its element type (findings). *)
+Theorem C10_reserialise_partial : forall fs rest,
+  (depth (TStruct fs) <= w_depth)%nat -> rwf (TStruct fs) = true -> rdable (TStruct fs) = true ->
+  reser_ok (TStruct fs) = true ->
+  exists v, from_buffer (wr (TStruct fs) ++ rest) = Some (v, rest) /\ ser v = Some (wr (TStruct fs)).
+Proof.
+  intros fs rest Hd Hw Hr Hk. exists (pv_of (TStruct fs)).
+  split; [exact (from_buffer_spec fs rest Hd Hw Hr)|exact (reserialise fs Hd Hk)].
+Qed.
+Print Assumptions C10_reserialise_partial.
+
+(* refuted: an i16 field (RowGroup.ordinal) read from a conformant writer is re-serialised as i64 *)
+Theorem C10_i16_reserialise_refuted : exists t v bs,
+  from_buffer (wr t) = Some (v, []) /\ ser v = Some bs /\ bs <> wr t.
+Proof.
+  exists (TStruct [(3, TI64 5); (7, TI16 2)]).
+  exists (pv_of (TStruct [(3, TI64 5); (7, TI16 2)])).
+  exists (match ser (pv_of (TStruct [(3, TI64 5); (7, TI16 2)])) with Some b => b | None => [] end).
+  vm_compute. repeat split. discriminate.
+Qed.
+Print Assumptions C10_i16_reserialise_refuted.
 
 (* refuted, cencoding.pyx `for i in range(1, 14)`: field id 14 (ColumnMetaData.bloom_filter_offset,
    LogicalType.UUID) is dropped; the parsed-back object is not equal to the original *)
